@@ -107,9 +107,13 @@ for _pid in ("C16", "C17", "C18"):
     }
 for _p in ("C02", "C03", "C04", "C13"):
     PROPS[_p] = dict(PROPS["C01"])
-PROPS["C02"]["streams"] = [S("crash", 250, 6000, vm=(10, 100), vm_maxlen=8000), S("segcrash", 300, 8000, vm=(6, 60), vm_maxlen=6000)]
+PROPS["C02"]["streams"] = [S("crash", 250, 6000, vm=(10, 100), vm_maxlen=8000), S("segcrash", 300, 8000, vm=(6, 60), vm_maxlen=6000),
+                           S("stalechain", 40, 1500, vm=(4, 40), vm_maxlen=6000)]
+PROPS["C03"]["streams"] = [S("crash", 250, 6000, vm=(10, 100), vm_maxlen=8000), S("segcrash", 250, 8000, vm=(6, 60), vm_maxlen=6000)]
 PROPS["C08"] = dict(PROPS["C05"])
-PROPS["C08"]["streams"] = [S("seqapi", 200, 5000, vm=(5, 100), vm_maxlen=5000), S("crash", 120, 3000, vm=(5, 50), vm_maxlen=8000)]
+PROPS["C01"]["streams"] = [S("crash", 300, 8000, vm=(10, 100), vm_maxlen=8000), S("segcrash", 250, 8000, vm=(6, 60), vm_maxlen=6000)]
+PROPS["C08"]["streams"] = [S("stable", 120, 3000, vm=(5, 60), vm_maxlen=5000), S("seqapi", 100, 3000, vm=(3, 60), vm_maxlen=5000), S("crash", 100, 3000, vm=(4, 50), vm_maxlen=8000),
+                           S("faults", 150, 3000, vm=(5, 50), vm_maxlen=8000)]
 
 PROPS['C14'] = {'assumptions': ['single writer goroutine (StoreLogs/DeleteRange are issued by one thread of the schedule); any number of readers, stable-store callers and '
                  'Close callers',
